@@ -30,7 +30,7 @@ RULE = ("obligations: lock facts regenerated from the source by /verif/harness/l
         "scenario = a fact table (the generated one, tables mutated from it by dropping a lock / weakening a mode / deleting a "
         "site, and random tables) with one verdict line per variable, Lean checker vs independent Go evaluation; non-trivial = "
         "table with a write fact and at least one disciplined and (for mutated tables) one undisciplined variable; plus the "
-        "-race stress of 10 middleware set-ups from 16 goroutines with exact totals")
+        "-race stress of 11 middleware set-ups from 16 goroutines with exact totals")
 ASSUMPTIONS = [
     "the translator: every access of a real execution is one of the emitted sites and the thread holds the locks listed there (Lean: Conforms / ConformsI facts es); a write at a site classified as one-statement read-modify-write is preceded by that statement's load with none of the site's locks released in between (Lean: ConformsU facts es)",
     "no-lost-update is proved from the facts only for counter variables (all write sites one-statement read-modify-writes); variables that are also reset by plain stores (RollingCounter.values, ConnLimiter.connections) are covered by 'no split update site in the table' and the exact stress totals",
@@ -55,7 +55,7 @@ MINI_FILES = ["lakefile.toml", "lean-toolchain", "lake-manifest.json", "OxyModel
 
 STATE = {"json": None, "bad_vars": []}
 
-STRESS = ["rr", "rebalancer", "cbreaker", "cbreaker-string", "ratelimit", "connlimit", "trace", "rtmetrics", "ttlmap", "stack"]
+STRESS = ["rr", "rebalancer", "cbreaker", "cbreaker-string", "ratelimit", "connlimit", "trace", "rtmetrics", "ttlmap", "stack", "sticky"]
 
 
 def _run(cmd, **kw):
@@ -231,7 +231,7 @@ def pre_check(check):
     if not check.build_harness(race=True):
         return
     quick = check.tier != "thorough"
-    iters, secs = (4000, 15) if quick else (60000, 90)
+    iters, secs = (3000, 12) if quick else (60000, 90)
     rounds = 1 if discipline_ok else 3
     found = {}
     lines = []
